@@ -575,9 +575,13 @@ pub fn gen_callset(rng: &mut Rng, p: &CallSetParams) -> (CallSet, Config) {
     let pos_base: u32 = if p.max_recs <= 500 && rng.chance(1, 25) { *rng.pick(&[65_500u32, 16_777_200, 2_147_400_000]) } else { 0 };
     let mut pos = pos_base;
     for i in 0..nrec {
+        let mut twin = false;
         if contig + 1 < ncontigs && rng.below((nrec - i) as u64 + 1) == 0 {
             contig += 1;
             pos = pos_base;
+            // now and then the new contig starts with the very same position and calls as the record
+            // before it (alternative contigs, patches)
+            twin = i > 0 && rng.chance(1, 3);
         }
         // positions increase, except that now and then a record shares the position of its
         // predecessor (split multiallelic sites are written that way)
@@ -607,6 +611,14 @@ pub fn gen_callset(rng: &mut Rng, p: &CallSetParams) -> (CallSet, Config) {
         if p.allow_no_gt && rng.chance(1, 14) {
             rec.no_gt = true;
             rec.kind = K_ALL_MISSING;
+        }
+        if twin {
+            if let Some(prev) = recs.last() {
+                let prev: &Rec = prev;
+                let c = rec.contig;
+                rec = prev.clone();
+                rec.contig = c;
+            }
         }
         recs.push(rec);
     }
